@@ -171,7 +171,18 @@ class Fn:
             return self._ipdom
         n = len(self.blocks)
         sm = self.succ_map()
-        succ = {b: (list(sm[b]) or [-1]) for b in range(n)}
+        # blocks that never return (unreachable, diverging panics) do not count as paths to the exit: the join of a
+        # branch is where its *returning* arms meet
+        def dead_end(b):
+            t = self.blocks[b]["term"]
+            return t is None or t["t"] in ("unreachable", "resume", "terminate") or (t["t"] == "call" and t.get("target") is None)
+        succ = {}
+        for b in range(n):
+            if dead_end(b):
+                succ[b] = []
+            else:
+                ss = [s for s in sm[b] if not dead_end(s)]
+                succ[b] = ss if ss else ([-1] if not sm[b] else [])
         pred = {b: [] for b in list(range(n)) + [-1]}
         for b, ss in succ.items():
             for s in ss:
